@@ -501,7 +501,7 @@ impl BuildSpec {
     }
 }
 
-fn script_call(b: PackageBuilder, kind: &str, sc: Scriptlet) -> PackageBuilder {
+pub fn script_call(b: PackageBuilder, kind: &str, sc: Scriptlet) -> PackageBuilder {
     match kind {
         "pre_install" => b.pre_install_script(sc),
         "post_install" => b.post_install_script(sc),
